@@ -12,6 +12,8 @@ import warnings
 import numpy as np
 
 import common
+import py2lean
+import py2lean_c13
 from common import Case, errname
 
 PID = 'C13'
@@ -46,6 +48,16 @@ THEOREMS = [
     'Nb.C13.readonly_read_iff',
     'Nb.C13.readonly_edit_is_noop',
     'Nb.C13.source_constants',
+    'Nb.C13.source_get_fdata',
+    'Nb.C13.source_get_data',
+    'Nb.C13.source_uncache',
+    'Nb.C13.source_in_memory',
+    'Nb.C13.source_dataobj',
+    'Nb.C13.source_defaults',
+    'Nb.C13.source_methods_follow_model',
+    'Nb.C13.source_cache_identity',
+    'Nb.C13.source_proxy_spec',
+    'Nb.C13.source_proxy_spec_header',
 ]
 ASSUMPTIONS = [
     'hand-written Lean model of DataobjImage.get_fdata/get_data/in_memory/uncache and of what '
@@ -60,6 +72,21 @@ ASSUMPTIONS = [
     'differential run (header pair after every header edit, data after it)',
     'array identities: every returned array is kept alive by the harness, so CPython id() is not recycled',
     'images are Nifti1Image of shape (n,1,1); dataobj[slice] is modelled for proxy images only',
+    'stage T: the bodies of DataobjImage.get_fdata / get_data / uncache / in_memory / dataobj are re-translated from '
+    'the working tree on every run by harness/py2lean_c13.py (purely syntactic: self = dict of attributes, return = '
+    '(result, self)) into Generated/C13Funcs.lean and PROVED equal to the documented model step for all states, '
+    'caching strings and dtypes; trusted there: the translator, Basic/PyVal.lean (semantics of the Python fragment) '
+    'and the NumPy primitives `prims` of Model/C13_Py.lean (np.dtype, .dtype/.type, issubclass(scalar type, '
+    'np.inexact), isinstance(x, np.ndarray), np.asanyarray(obj, dtype) = the object itself iff an ndarray of that '
+    'dtype, otherwise a new array) — all three validated on every run by the streams `gen` / `genst` / `gen-random` '
+    '(translated methods in the native driver vs the real methods on real images in the same, also injected, '
+    'abstract state)',
+    'stage T for ArrayProxy.__init__: the statements that mention `spec` / `par` are cut out of the current source '
+    'syntactically (py2lean_c13.slice_statements), translated, and proved equal to ProxySpec.par / Par.ofHdr for every '
+    'header object and tuple spec; trusted: the slicing rule, the header-object primitives `primsSpec` (hasattr + the four '
+    'getters), float literals 1.0 / 0.0 read as the integers 1 / 0; validated by stream `genspec`.  NOT translated: '
+    'the rest of __init__ (mmap / order / keep_file_open handling), the read path (_get_unscaled / _get_scaled / '
+    '__array__ / __getitem__) — those stay in the hand-written model (Par.readRO / sliceRO / scaled) tied by correspondence',
 ]
 RULE = ('streams: exhaustive op sequences of exact depth 4 (quick) / 5 (thorough; 6 over a reduced alphabet) over '
         '{get_fdata(fill|unchanged,f4|f8), asarray(dataobj), dataobj[slice], uncache, edit-last, edit-array-0, '
@@ -75,7 +102,15 @@ RULE = ('streams: exhaustive op sequences of exact depth 4 (quick) / 5 (thorough
         'read->edit->(uncache|fill)->re-read->edit->uncache->re-read on unscaled float files for kfo x mmap; random '
         'sequences up to depth 30 over the full alphabet incl. in_memory, get_data(unchanged), edit of any earlier '
         'array, header shape/dtype edits, bad caching / int dtype / zero-step slice. A case is non-trivial when it '
-        'contains a data read; distinct by (image configuration, flavour, op sequence).')
+        'contains a data read; distinct by (image configuration, flavour, op sequence). Stage-T streams (driver runs '
+        'the methods translated from the current source): `gen` exhaustive depth 3/4 over {get_fdata x4, asarray, uncache, '
+        'edit-last, get_data(fill|unchanged), in_memory} for the six base configurations + rare ops after every 2-prefix '
+        'for all configurations; `genst` ONE method call (every method / caching / dtype incl. the refused ones) + probes, '
+        'and short random method sequences, from an INJECTED abstract state: _fdata_cache x _data_cache each in {None, '
+        'own array, an int16 / float32 / read-only float64 array} for int16/f4/f8 array images and scaled / unscaled proxy '
+        'images; `gen-random`: every fourth random sequence; `genspec`: ArrayProxy(BytesIO, spec) for header objects (a real '
+        'Nifti1Header and a duck-typed header with slope / intercept independently None) x 3 dtypes x 16 scalings, and tuple '
+        'specs of length 0..7, against the spec handling translated from ArrayProxy.__init__.')
 
 DTS = {'i2': np.int16, 'f4': np.float32, 'f8': np.float64}
 DTNAME = {np.dtype(v): k for k, v in DTS.items()}
@@ -151,10 +186,12 @@ def regen():
     intercept (header spec and short tuple spec), the accepted `mmap` values and what `True` means."""
     import ast
     di = _src_ast('nibabel/dataobj_images.py')
+    ap = _src_ast('nibabel/arrayproxy.py')
+    # stage T first: the translated functions are written even if one of the constant patterns below no longer matches
+    gen_funcs = regen_methods(di, ap)
     gf = _find_func(di, 'DataobjImage', 'get_fdata')
     gd = _find_func(di, 'DataobjImage', 'get_data')
     dgf, dgd = _defaults(gf), _defaults(gd)
-    ap = _src_ast('nibabel/arrayproxy.py')
     init = _find_func(ap, 'ArrayProxy', '__init__')
     none_sub, optional = {}, None
     for node in ast.walk(init):
@@ -212,10 +249,34 @@ end Nb.Gen.C13
        _int_of(optional[0], 'optional[0]'), _int_of(optional[1], 'optional[1]'), _int_of(optional[2], 'optional[2]'),
        _lean_str_list(mm), true_mode)
     common.write_if_changed(GEN_PATH, text)
-    return ['Generated.C13Consts']
+    return ['Generated.C13Consts'] + gen_funcs
 
 
-# ------------------------------------------------------------------ cases
+GEN_FUNCS_PATH = os.path.join(common.LEAN, 'NibabelModel', 'Generated', 'C13Funcs.lean')
+# (method of DataobjImage, Lean name) — translated from the working tree on every run (stage T)
+GEN_METHODS = [('get_fdata', 'get_fdata', ('caching', 'dtype')), ('get_data', 'get_data', ('caching',)),
+               ('uncache', 'uncache', ()), ('in_memory', 'in_memory', ()), ('dataobj', 'dataobj', ())]
+
+
+def regen_methods(tree, ap_tree):
+    """Translate the BODIES of the cache methods of the CURRENT dataobj_images.py, and the `spec` handling of
+    `ArrayProxy.__init__` (the statements that mention `spec` / `par`, cut out syntactically), into Lean
+    (harness/py2lean_c13.py: `self` is a dict of attributes, NumPy / header calls are the primitives of
+    Basic/PyValC13.lean).  Lemmas/C13_Gen.lean / C13_GenProxy.lean prove each translation equal to the model.  A body
+    outside the fragment is emitted as a definition that raises `Err.unsupported` (model and driver keep building; the
+    equality proof fails, so the obligation is reported broken and the runner searches for a failing input)."""
+    hdr = ('/-! GENERATED by harness/props/c13.py regen() with harness/py2lean_c13.py from the working tree of nibabel\n'
+           '    (nibabel/dataobj_images.py class DataobjImage; nibabel/arrayproxy.py ArrayProxy.__init__). Do not edit:\n'
+           '    rewritten on every run of `./check C13`.  Core Lean only. -/')
+    entries = [('DataobjImage.' + py, ln, extra,
+                (lambda py=py: py2lean_c13.find_method(tree, 'DataobjImage', py))) for py, ln, extra in GEN_METHODS]
+    entries.append(('ArrayProxy.__init__ (statements on spec / par)', 'proxy_spec', ('spec',),
+                    lambda: py2lean_c13.slice_statements(py2lean_c13.find_method(ap_tree, 'ArrayProxy', '__init__'),
+                                                         {'spec', 'par'}, ['spec'], 'proxy_spec')))
+    text, _failed = py2lean_c13.translate_methods(entries, 'Nb.Gen.C13F', hdr)
+    common.write_if_changed(GEN_FUNCS_PATH, text)
+    return ['Generated.C13Funcs.' + e[1] for e in entries]
+
 
 def _unscaled(scale):
     return scale is None or tuple(scale) == (1, 0)
@@ -236,7 +297,8 @@ def _ro_mmap(d):
             and _unscaled(d.get('scale')))
 
 
-def mk_case(kind, dt, scale, raw, ops, flavour, stream='main', kfo=None, mmap=True, spell=False):
+def mk_case(kind, dt, scale, raw, ops, flavour, stream='main', kfo=None, mmap=True, spell=False, mode='run',
+            inject=None):
     """kfo / mmap: the `keep_file_open` / `mmap` arguments of nib.load / from_file_map / ArrayProxy (proxy images;
     the model does not depend on them: uncached reads are fresh and reflect the file whatever the I/O strategy).
     spell: call get_fdata / get_data with omitted (default) / positional arguments and other dtype spellings.
@@ -249,24 +311,138 @@ def mk_case(kind, dt, scale, raw, ops, flavour, stream='main', kfo=None, mmap=Tr
         mkind += ':%s%s%s' % ({True: 'T', False: 'F', 'c': 'c', 'r': 'r'}[mmap],
                               'p' if flavour in PATH_FLAVOURS else 'z' if flavour == 'gz' else 'h',
                               's' if flavour in SWAPPED_FLAVOURS else 'n')
-    line = 'C13 run %s %s %s %s %s %s' % (mkind, dt, sl, it, ','.join(map(str, raw)) if raw else '-',
-                                          ';'.join(ops) if ops else '-')
+    # mode 'run': the hand-written object-level model; mode 'gen': the METHODS TRANSLATED from the current source
+    # (Generated/C13Funcs.lean) run by the driver on the abstract state; with `inject` (mode 'gen' only) the image is
+    # first put into an arbitrary abstract state: extra arrays [(dtype, values, read_only)] and which array (id) sits
+    # in `_fdata_cache` / `_data_cache`
+    rawtok, opstok = ','.join(map(str, raw)) if raw else '-', ';'.join(ops) if ops else '-'
+    if inject is not None:
+        if mode != 'gen':
+            raise ValueError('inject needs mode gen')
+        heap = '/'.join('%s:%s:%s' % (a[0], ','.join(map(str, a[1])), 'r' if a[2] else 'w') for a in inject['heap']) or '-'
+        f = lambda x: '_' if x is None else str(x)  # noqa: E731
+        line = 'C13 genst %s %s %s %s %s %s %s %s %s' % (mkind, dt, sl, it, rawtok, heap, f(inject.get('fc')),
+                                                         f(inject.get('dc')), opstok)
+    else:
+        line = 'C13 %s %s %s %s %s %s %s' % (mode, mkind, dt, sl, it, rawtok, opstok)
     data = {'kind': kind, 'dt': dt, 'scale': list(scale) if scale is not None else None, 'raw': list(raw),
             'ops': list(ops), 'flavour': flavour, 'stream': stream}
+    if mode != 'run':
+        data['mode'] = mode
+    if inject is not None:
+        data['inject'] = {'heap': [[a[0], list(a[1]), bool(a[2])] for a in inject['heap']], 'fc': inject.get('fc'),
+                          'dc': inject.get('dc')}
     if kind == 'P' and (kfo is not None or mmap is not True):
         data['kfo'], data['mmap'] = kfo, mmap
     if spell:
         data['spell'] = True
     nontrivial = any(o[0] in 'gdas' for o in ops)
     key = (kind, dt, sl, it, tuple(raw), flavour, data.get('kfo'), data.get('mmap', True), bool(spell),
-           tuple(ops)) if nontrivial else None
+           tuple(ops), mode, line if inject is not None else None) if nontrivial else None
     return Case(line, data, key, stream)
 
 
+# ---- stream `genspec`: the `spec` handling of ArrayProxy.__init__ (translated from the source) on header objects and
+# tuples.  spec data: {'t': 'H', 'slope', 'inter', 'n', 'dt', 'off'} | {'t': 'T', 'n', 'dt', 'rest': [...]} |
+# {'t': 'S', 'shape': bool, 'n'}
+def mk_spec_case(sp):
+    f = lambda x: '_' if x is None else str(x)  # noqa: E731
+    if sp['t'] == 'H':
+        line = 'C13 genspec H %s %s %d %s %d' % (f(sp['slope']), f(sp['inter']), sp['n'], sp['dt'], sp['off'])
+    elif sp['t'] == 'T':
+        line = 'C13 genspec T %d %s %s' % (sp['n'], sp['dt'], ','.join(map(str, sp['rest'])) if sp['rest'] else '-')
+    else:
+        line = 'C13 genspec S %d %d' % (1 if sp['shape'] else 0, sp['n'])
+    return Case(line, {'op': 'genspec', 'spec': sp, 'stream': 'genspec'}, ('genspec', line), 'genspec')
+
+
+class _DuckHeader:
+    """a header object in the sense of the ArrayProxy docstring (the four methods), with independent None for slope
+    and intercept"""
+
+    def __init__(self, sp):
+        self.sp = sp
+
+    def get_data_shape(self):
+        return (self.sp['n'], 1, 1)
+
+    def get_data_dtype(self):
+        return np.dtype(DTS[self.sp['dt']])
+
+    def get_data_offset(self):
+        return self.sp['off']
+
+    def get_slope_inter(self):
+        f = lambda x: None if x is None else float(x)  # noqa: E731
+        return f(self.sp['slope']), f(self.sp['inter'])
+
+
+def run_spec(sp):
+    import nibabel as nib
+    from nibabel.arrayproxy import ArrayProxy
+    if sp['t'] == 'H':
+        both = (sp['slope'] is None) == (sp['inter'] is None)
+        if both and sp.get('real', True):
+            spec = nib.Nifti1Header()
+            spec.set_data_dtype(DTS[sp['dt']])
+            spec.set_data_shape((sp['n'], 1, 1))
+            spec.set_slope_inter(sp['slope'], sp['inter'])
+            spec.set_data_offset(sp['off'])
+        else:
+            spec = _DuckHeader(sp)
+    elif sp['t'] == 'T':
+        spec = ((sp['n'], 1, 1), DTS[sp['dt']]) + tuple(float(x) if k else int(x) for k, x in enumerate(sp['rest']))
+    else:
+        spec = ((sp['n'], 1, 1),) if sp['shape'] else ()
+    try:
+        pr = ArrayProxy(io.BytesIO(b''), spec)
+    except TypeError:
+        return 'ERR:TypeError'
+    except ValueError:
+        return 'ERR:ValueError'
+    shape = tuple(pr.shape)
+    n = str(shape[0]) if len(shape) == 3 and shape[1:] == (1, 1) else 'shape' + repr(shape).replace(' ', '')
+    return 'n=%s dt=%s off=%s slope=%s inter=%s' % (n, DTNAME.get(np.dtype(pr.dtype).newbyteorder('='), str(pr.dtype)),
+                                                    _ex(pr.offset), _ex(pr.slope), _ex(pr.inter))
+
+
+def spec_expected(sp):
+    """the ArrayProxy docstring: a tuple of length 2-5 = (shape, dtype[, offset=0[, slope=1.0[, inter=0.0]]]); a header
+    object gives the same five values, a missing (None) slope / intercept meaning 1.0 / 0.0; anything else: TypeError"""
+    if sp['t'] == 'H':
+        vals = [sp['off'], 1 if sp['slope'] is None else sp['slope'], 0 if sp['inter'] is None else sp['inter']]
+    elif sp['t'] == 'T' and len(sp['rest']) <= 3:
+        vals = list(sp['rest']) + [0, 1, 0][len(sp['rest']):]
+    else:
+        return 'ERR:TypeError'
+    return 'n=%d dt=%s off=%d slope=%d inter=%d' % (sp['n'], sp['dt'], vals[0], vals[1], vals[2])
+
+
+def spec_cases(rng, tier):
+    out = []
+    for dt in ('i2', 'f4', 'f8'):
+        for sl in (None, 1, 2, -3):
+            for it in (None, 0, 5, -2):
+                for n, off in ((1, 0), (3, 352)):
+                    out.append(mk_spec_case({'t': 'H', 'slope': sl, 'inter': it, 'n': n, 'dt': dt, 'off': off}))
+                    if (sl is None) == (it is None):
+                        out.append(mk_spec_case({'t': 'H', 'slope': sl, 'inter': it, 'n': n, 'dt': dt, 'off': off,
+                                                 'real': False}))
+        for k in range(0, 6):
+            for _ in range(1 if k == 0 else 6):
+                rest = [rng.choice([0, 7, 352])] + [rng.choice([1, 2, -3, 0, 5]) for _ in range(k - 1)] if k else []
+                out.append(mk_spec_case({'t': 'T', 'n': rng.choice([1, 3, 4]), 'dt': dt, 'rest': rest}))
+    for sh in (False, True):
+        out.append(mk_spec_case({'t': 'S', 'shape': sh, 'n': 3}))
+    return out
+
+
 def case_from_data(d):
+    if d.get('op') == 'genspec':
+        return mk_spec_case(d['spec'])
     return mk_case(d['kind'], d['dt'], tuple(d['scale']) if d.get('scale') is not None else None, d['raw'], d['ops'],
                    d.get('flavour', 'fmap'), d.get('stream', 'main'), d.get('kfo'), d.get('mmap', True),
-                   d.get('spell', False))
+                   d.get('spell', False), d.get('mode', 'run'), d.get('inject'))
 
 
 # ------------------------------------------------------------------ implementation side
@@ -491,6 +667,19 @@ def run_real(d):
     if own is not None:
         alive.append(own)
         ids[id(own)] = 0
+    inj = d.get('inject')
+    if inj:
+        # put the image object into the abstract state: arrays that already exist, caches pointing at any of them
+        for dt_, vals, ro in inj['heap']:
+            a = np.array(vals, dtype=DTS[dt_]).reshape(len(vals), 1, 1)
+            if ro:
+                a.flags.writeable = False
+            ids[id(a)] = len(alive)
+            alive.append(a)
+        if inj.get('fc') is not None:
+            img._fdata_cache = alive[inj['fc']]
+        if inj.get('dc') is not None:
+            img._data_cache = alive[inj['dc']]
     try:
         for op in d['ops']:
             r, res = None, '-'
@@ -555,6 +744,8 @@ def run_real(d):
 def impl(case):
     if case.extra is not None and 'out' in case.extra:
         return case.extra['out']
+    if case.data.get('op') == 'genspec':
+        return run_spec(case.data['spec'])
     return run_real(case.data)
 
 
@@ -587,6 +778,14 @@ class DocModel:
         self.cache = None          # get_fdata cache
         self.legacy = None         # get_data cache
         self.last = None
+        inj = d.get('inject')
+        if inj:
+            for dt_, vals, ro in inj['heap']:
+                self.new(dt_, list(vals), bool(ro))
+            if inj.get('fc') is not None:
+                self.cache = self.arrays[inj['fc']]
+            if inj.get('dc') is not None:
+                self.legacy = self.arrays[inj['dc']]
 
     def new(self, dt, vals, ro=False):
         a = [self.n_ids, dt, vals, ro]
@@ -676,6 +875,11 @@ def expected(d):
 
 def oracle(case, out):
     d = case.data
+    if d.get('op') == 'genspec':
+        exp = spec_expected(d['spec'])
+        if out != exp:
+            return 'ArrayProxy(file, spec) for spec %r keeps %s, the documented spec handling gives %s' % (d['spec'], out, exp)
+        return None
     exp = expected(d)
     body, _, tail = out.rpartition(' ')
     if not body and not d['ops']:
@@ -689,16 +893,19 @@ def oracle(case, out):
         return 'implementation produced %d step results for %d ops: %s' % (len(got), len(exp), out[:200])
     for i, (g, e) in enumerate(zip(got, exp)):
         if g != e:
-            return ('step %d (%s) of %s on %s image (%s, scale %s, flavour %s): documented model gives %s, '
+            return ('step %d (%s) of %s on %s image (%s, scale %s, flavour %s)%s: documented model gives %s, '
                     'implementation gives %s  [id:dtype:values:writeable:in_memory]'
                     % (i, d['ops'][i], ';'.join(d['ops']), 'array' if d['kind'] == 'A' else 'proxy', d['dt'],
                        d.get('scale'), '%s%s' % (d.get('flavour'), (' keep_file_open=%r mmap=%r' % (d.get('kfo'), d.get('mmap', True)))
-                                                  if ('kfo' in d or 'mmap' in d) else ''), e, g))
+                                                  if ('kfo' in d or 'mmap' in d) else ''),
+                       (' from the injected state %r' % (d['inject'],)) if d.get('inject') else '', e, g))
     return None
 
 
 def signature(case, what):
     d = case.data
+    if d.get('op') == 'genspec':
+        return 'c13:proxy-spec:%s' % d['spec']['t']
     exp = expected(d)
     try:
         out = impl(case)
@@ -732,9 +939,17 @@ def signature(case, what):
 
 def shrink_candidates(case):
     d = case.data
+    if d.get('op') == 'genspec':
+        return
     ops = d['ops']
     scale = tuple(d['scale']) if d.get('scale') is not None else None
     kfo, mm = d.get('kfo'), d.get('mmap', True)
+    if d.get('mode', 'run') != 'run':
+        # translated-method streams: only drop ops (the injected state and the mode are the point of the case)
+        for i in range(len(ops)):
+            yield mk_case(d['kind'], d['dt'], scale, d['raw'], ops[:i] + ops[i + 1:], d.get('flavour'), d.get('stream'),
+                          kfo, mm, d.get('spell', False), d['mode'], d.get('inject'))
+        return
     for i in range(len(ops)):
         yield mk_case(d['kind'], d['dt'], scale, d['raw'], ops[:i] + ops[i + 1:], d.get('flavour'), d.get('stream'),
                       kfo, mm, d.get('spell', False))
@@ -857,6 +1072,54 @@ def history_cases(tier):
     return out
 
 
+# ---- stage T streams: the methods translated from the current source, run by the driver (mode 'gen')
+GEN_ALPHA = ['gf4', 'gf8', 'gu4', 'gu8', 'a', 'u', 'el', 'df', 'du', 'm']
+GEN_RARE = ['gx4', 'gfi', 'gxi', 'dx', 'e0', 's1,_,_', 'hi:s3,5', 'ho:tf8']
+GEN_METHOD_OPS = ['gf4', 'gf8', 'gu4', 'gu8', 'gfi', 'gx8', 'df', 'du', 'dx', 'u', 'm', 'a']
+GEN_PROBE = ['gu4', 'gu8', 'du', 'm']
+# arrays that exist before the call, besides the own array of an array image
+GEN_EXTRA = [('i2', (1, 2), False), ('f4', (5, 6, 7), False), ('f8', (8, 9), True)]
+GEN_ST_CONFIGS = [
+    ('A', 'i2', (2, 1), (3, 4, 5), 'array'),
+    ('A', 'f4', None, (3, 4, 5), 'array'),
+    ('A', 'f8', (1, 0), (3, 4), 'array'),
+    ('P', 'i2', (2, 1), (3, 4, 5), 'fmap'),
+    ('P', 'f4', None, (3, 4), 'fmap'),
+    ('P', 'f8', (1, 0), (3, 4, 5), 'load'),
+]
+
+
+def gen_cases(rng, tier):
+    """`gen`: op sequences through the translated methods from the constructors' states (same real run as `run`);
+    `genst`: ONE method call (+ probes that reveal which array sits in which cache afterwards) from an injected
+    abstract state — every combination of {no cache, cache = the own array / an int16 / float32 / read-only float64
+    array} for `_fdata_cache` x `_data_cache`, reachable or not, for array and proxy images."""
+    out = []
+    depth = 3 if tier != 'thorough' else 4
+    for (kind, dt, scale, raw, fl) in CONFIGS:
+        alpha = GEN_ALPHA if depth == 3 else GEN_ALPHA[:8]
+        for ops in itertools.product(alpha, repeat=depth):
+            out.append(mk_case(kind, dt, scale, raw, ops, fl, 'gen', mode='gen'))
+    for (kind, dt, scale, raw, fl) in CONFIGS + MORE_CONFIGS:
+        rr = [o for o in GEN_RARE if not (kind == 'A' and o[0] == 's')]
+        for pre in itertools.product(['gf4', 'gf8', 'df', 'u'], repeat=2):
+            for o in rr:
+                out.append(mk_case(kind, dt, scale, raw, list(pre) + [o, 'gu8', 'du', 'gu4'], fl, 'gen', mode='gen'))
+    for (kind, dt, scale, raw, fl) in GEN_ST_CONFIGS:
+        n0 = 1 if kind == 'A' else 0
+        slots = [None] + list(range(n0 + len(GEN_EXTRA)))
+        for fc in slots:
+            for dc in slots:
+                inj = {'heap': GEN_EXTRA, 'fc': fc, 'dc': dc}
+                for o in GEN_METHOD_OPS:
+                    out.append(mk_case(kind, dt, scale, raw, [o] + GEN_PROBE, fl, 'genst', mode='gen', inject=inj))
+                for _ in range(2 if tier != 'thorough' else 8):
+                    ops = [rng.choice(GEN_METHOD_OPS + ['el', 'e%d' % rng.randrange(0, n0 + 4)])
+                           for _ in range(rng.choice([2, 3, 5]))]
+                    out.append(mk_case(kind, dt, scale, raw, ops + GEN_PROBE, fl, 'genst', mode='gen', inject=inj))
+    return out
+
+
 CORE = ['gf4', 'gf8', 'gu4', 'gu8', 'a', 'u', 'el']
 EXH_A = CORE + ['df', 'e0']
 EXH_P = CORE + ['s1,_,_', 'df', 'hi:s3,5', 'ho:s3,5']
@@ -913,6 +1176,8 @@ def _parallel_impl(cs):
 
 def _safe_run(d):
     try:
+        if d.get('op') == 'genspec':
+            return run_spec(d['spec'])
         return run_real(d)
     except Exception as e:  # noqa: BLE001
         return errname(e)
@@ -956,6 +1221,8 @@ def cases(rng, tier):
         for ops in itertools.product(SPELL_ALPHA, repeat=cdepth):
             out.append(mk_case(kind, dt, scale, raw, ops, fl, 'spell', spell=True))
     out.extend(history_cases(tier))
+    out.extend(gen_cases(rng, tier))
+    out.extend(spec_cases(rng, tier))
     if tier == 'thorough':
         for (kind, dt, scale, raw, fl) in (CONFIGS[0], CONFIGS[2], CONFIGS[3], CONFIGS[4]):
             alpha = CORE if kind == 'A' else CORE[:6] + ['s1,_,_']
@@ -1001,6 +1268,9 @@ def cases(rng, tier):
         kfo, mm = None, True
         if kind == 'P' and rng.random() < 0.6:
             kfo, mm = rng.choice(KFO), rng.choice(MMAP)
-        out.append(mk_case(kind, dt, scale, raw, ops, fl, 'random', kfo, mm, spell=rng.random() < 0.2))
+        sp = rng.random() < 0.2
+        out.append(mk_case(kind, dt, scale, raw, ops, fl, 'random', kfo, mm, spell=sp))
+        if len(out) % 4 == 0:
+            out.append(mk_case(kind, dt, scale, raw, ops, fl, 'gen-random', kfo, mm, spell=sp, mode='gen'))
     _parallel_impl(out)
     return out
